@@ -115,6 +115,25 @@ Proof.
     rewrite H in C1. simpl in C1. congruence.
 Qed.
 
+(* which command reaches handle_set: exactly the set command (1) *)
+Definition is_hset (h : option hfun) : bool := match h with Some HSet => true | _ => false end.
+Definition set_check (v : ver) : bool :=
+  forallb (fun tn => implb (is_hset (registry_fun (tab_of v) (snd tn))) (fst tn =? 1)) (vt_mtype_names (tab_of v)) &&
+  is_hset (type_handler (tab_of v) 1).
+Lemma set_check_all v : set_check v = true.
+Proof. destruct v; vm_compute; reflexivity. Qed.
+
+Lemma type_handler_set v ty : is_hset (type_handler (tab_of v) ty) = (ty =? 1).
+Proof.
+  pose proof (set_check_all v) as C. unfold set_check in C. apply andb_true_iff in C as [C1 C2].
+  destruct (Z.eqb_spec ty 1) as [->|N]; [exact C2|].
+  destruct (is_hset (type_handler (tab_of v) ty)) eqn:H; [|reflexivity].
+  unfold type_handler in H. destruct (zassoc ty (vt_mtype_names (tab_of v))) as [name|] eqn:E; [|discriminate].
+  apply zassoc_In in E. rewrite forallb_forall in C1. specialize (C1 _ E). simpl in C1.
+  rewrite H in C1. simpl in C1. apply Z.eqb_eq in C1. contradiction.
+Qed.
+
+
 (* the command values of the five tables *)
 Lemma tab_consts v :
   vt_presentation (tab_of v) = 0 /\ vt_set (tab_of v) = 1 /\ vt_req (tab_of v) = 2 /\
